@@ -105,6 +105,8 @@ impl<'a> Src<'a> {
 pub struct Outcome {
     pub nontrivial: bool,
     pub labels: Vec<&'static str>,
+    /// number of elementary checks performed inside this case (batched cases)
+    pub units: u64,
 }
 
 impl Outcome {
@@ -211,6 +213,7 @@ const MAX_FAILURES_KEPT: usize = 40;
 #[derive(Default)]
 pub struct Stats {
     pub evaluations: u64,
+    pub units: u64,
     pub nontrivial_evals: u64,
     pub distinct: HashSet<u64>,
     pub distinct_capped: bool,
@@ -243,6 +246,7 @@ pub struct FailureRecord {
 impl Stats {
     pub fn merge(&mut self, o: Stats) {
         self.evaluations += o.evaluations;
+        self.units += o.units;
         self.nontrivial_evals += o.nontrivial_evals;
         if self.distinct.len() + o.distinct.len() <= DISTINCT_CAP {
             self.distinct.extend(o.distinct);
@@ -321,6 +325,7 @@ impl<'a> Part<'a> {
 
     fn record_ok<C: CaseT>(&mut self, case: &C, o: &Outcome) {
         self.stats.evaluations += 1;
+        self.stats.units += o.units.max(1);
         self.stats.parts.get_mut(&self.name).unwrap().evaluations += 1;
         for l in &o.labels {
             *self.stats.classes.entry((*l).to_string()).or_default() += 1;
@@ -566,6 +571,7 @@ pub fn conclude(ctx: &Ctx, stats: Stats, rule: &str, assumptions: &[&str], wall_
         "known_findings_hit": known_hits,
         "coverage": {
             "evaluations": stats.evaluations,
+            "elementary_checks": stats.units,
             "nontrivial_evaluations": stats.nontrivial_evals,
             "distinct_nontrivial": stats.distinct.len(),
             "distinct_capped": stats.distinct_capped,
